@@ -543,6 +543,7 @@ def c17(prog, rep):
     from . import looprules as LP
     LP.rule_lp1(prog, rep, PARSER_UNITS)
     LP.rule_lp2(prog, rep, PARSER_UNITS)
+    LP.rule_lp3(prog, rep, PARSER_UNITS)
     from . import configrules as CR
     clf = CR.find_bool_classifier(prog)
     rep.rule('CU5', 'the word classifier whose acceptance lets the parser overwrite the word in place ("1"/"0") compares whole words '
@@ -572,6 +573,7 @@ def c17(prog, rep):
 def c19(prog, rep):
     from . import index as IX, copy as C
     IX.rule_q1(prog, rep)
+    IX.rule_q2(prog, rep)
     C.rule_m1(prog, rep, ['src/utilities/qstring.c'])
     from . import strrules as SR
     SR.rule_trimset(prog, rep)
